@@ -329,6 +329,7 @@ def check(ctx):
                              mv if isinstance(mv, str) else {k: str(mv.get(k)) for k in bad}, 'at read %d keys %s' % (i, bad))
                 break
     compare_alias_ties(ctx)
+    p2_extreme_component_cases(ctx)
     # P²: array estimator vs grid of scalar estimators, components in different branches; lock-step per component
     l2, p2, vl, vp = [], [], [], []
     for _ in range(ctx.scale(60, 600)):
@@ -336,6 +337,40 @@ def check(ctx):
         c07.run_case(ctx, case, rng, l2, p2)
     c07.compare_lockstep(ctx, l2, p2)
     compare_vector_lockstep(ctx, vl, vp)
+
+
+def p2_extreme_component_cases(ctx):
+    """one component near the largest float (beyond C07's range: its own markers may overflow to inf or nan), the other ordinary: what happens to
+    the ordinary component — and to the extreme one — is what a scalar estimator fed that component alone does. Real code on both sides, no model."""
+    rng = ctx.rng
+    for _ in range(ctx.scale(12, 100)):
+        spec = p2lib.gen_grid(rng)
+        n = rng.choice([8, 20, 40])
+        big = [rng.choice([-1, 1]) * rng.uniform(0.9, 1.7) * 1e308 for _ in range(n)]
+        other = p2lib.gen_seq(rng, n, rng.choice(['uniform', 'gauss', 'ints', 'tied']))
+        order = rng.choice([0, 1])
+        cols = [big, other] if order == 0 else [other, big]
+        case = dict(kind='p2', extreme_component=order, spec=spec, n=n, cols=cols if n <= 8 else None)
+        ctx.case(('p2-extreme', repr(spec), tuple(other), order), True, sample=case if n <= 8 else None)
+        ctx.count('p2_extreme_component')
+        est = p2lib.make(spec)
+        grid = [p2lib.make(spec), p2lib.make(spec)]
+        bad = None
+        for i in range(n):
+            with np.errstate(all='ignore'):
+                est.accumulate(np.array([cols[0][i], cols[1][i]]))
+                for c in range(2):
+                    grid[c].accumulate(cols[c][i])
+            for c in range(2):
+                sa, sc = p2lib.state(est, c), p2lib.state(grid[c])
+                if sa[0] != sc[0] or sa[2] != sc[2] or not all(p2lib.same_float(a, b) for a, b in zip(sa[1], sc[1])):
+                    bad = 'component %d (%s) after observation %d: array estimator %s, scalar estimator %s' % (
+                        c, 'the extreme one' if c == order else 'the ordinary one', i, (sa[1][:6], sa[2][:6]), (sc[1][:6], sc[2][:6]))
+                    break
+            if bad:
+                break
+        if bad:
+            ctx.fail('component-differs-from-scalar-accumulator:p2', 'frames with one component near the largest float: ' + bad, dict(case, cols=cols))
 
 
 def compare_alias_ties(ctx):
@@ -395,6 +430,9 @@ def compare_vector_lockstep(ctx, vlines, vposts):
 
 def replay(ctx, data):
     case = data['case']
+    if case.get('kind') == 'p2' and 'extreme_component' in case:
+        p2_extreme_component_cases(ctx)
+        return
     if case.get('kind') == 'cov':
         cov_case(ctx, case['values'], case['d'], case.get('frame'), case.get('own_at'))
         compare_alias_ties(ctx)
